@@ -1,17 +1,17 @@
-SPECIFICATION Spec18
+SPECIFICATION Spec
 CONSTANTS
   IncMax = 3
   TokenMod = 4
   ProbeMod = 4
-  NN = 2
-  Horizon = 0
-  Mode = "c18"
-  Pol = "none"
+  NN = 3
+  Horizon = 80
+  Mode = "c05"
+  Pol = "next"
   NotifyDown = TRUE
   MaxTx = 2
   PGossip = FALSE
-  PAnnDown = FALSE
+  PAnnDown = TRUE
   PAnnounce = FALSE
-INVARIANTS MonitorsQuiet
-PROPERTY Terminates
+INVARIANTS MonitorsQuiet C05Converges
+VIEW View
 CHECK_DEADLOCK FALSE
